@@ -80,7 +80,7 @@ INVERT = "that A(K') is invertible for each of the 477 K' (consistency of the en
 PROPS.update({
     "C01": {
         "thm_modules": ["Rq.Thm.C01", "Rq.Thm.C02"],
-        "engines": [("decblk", "release"), ("decblk", "debug"), ("decobj", "release"), ("decobj", "debug"), ("fastpath", "release")],
+        "engines": [("decblk", "release"), ("decblk", "debug"), ("decobj", "release"), ("decobj", "debug"), ("fastpath", "release"), ("solver", "release")],
         "modelled": [SOLVER],
         "assumptions": [INVERT, "packets are genuine packets of one object (an erasure code makes no promise on corrupted payloads)"],
     },
